@@ -1,9 +1,22 @@
 pub mod c01;
+pub mod c08;
 
 pub fn dispatch(prop: &str, tier: &str, seed: u64, path: Option<&str>) -> i32 {
     let _ = path;
+    if tier == "shard" {
+        // child mode: pv <PROP> shard <tier> --seed S --shard i/N --from j
+        let args: Vec<String> = std::env::args().collect();
+        let real_tier = args.get(3).cloned().unwrap_or_else(|| "quick".into());
+        let Some(a) = crate::shard::parse_shard_args(&args) else { return 2 };
+        match prop {
+            "C08" => c08::child(&real_tier, seed, a),
+            _ => return 2,
+        }
+        return 0;
+    }
     match prop {
         "C01" => c01::run(tier, seed),
+        "C08" => c08::run(tier, seed),
         _ => {
             eprintln!("unknown property {prop}");
             2
@@ -41,4 +54,30 @@ pub fn err_class(e: &str) -> String {
         }
     }
     out.trim_end_matches('(').to_string()
+}
+
+/// Debug helper: message list of one honest run.
+pub fn dump(n: usize) {
+    use crate::circ::Builder;
+    let inputs: Vec<usize> = (0..n).map(|_| 2).collect();
+    let mut b = Builder::new(&inputs);
+    let a = b.and(b.input(0, 0), b.input(1, 0));
+    let x = b.xor(a, b.input(0, 1));
+    let nx = b.not(x);
+    let a2 = b.and(nx, b.input(n - 1, 1));
+    let c = b.finish(vec![a2, x]);
+    let inp: Vec<Vec<bool>> = (0..n).map(|_| vec![true, false]).collect();
+    let mut case = crate::runner::Case::new(c, inp, 0, (0..n).collect());
+    case.record_probes = true;
+    let ex = crate::runner::exec_mpc(case);
+    for m in &ex.net.msgs {
+        let label = ex.net.label(m.label).to_string();
+        let sch = crate::codec::schema_for(&label);
+        let ok = sch.as_ref().map(|s| crate::codec::decode_all(s, &m.sent).map(|v| crate::codec::to_bytes(&v) == m.sent));
+        println!("{:4} {}->{} {:28} k={} len={:7} roundtrip={:?}", m.id, m.from, m.to, label, m.k, m.sent.len(), ok);
+    }
+    for p in &ex.probes {
+        println!("probe {} party={:?} idx={} len={}", p.site, p.party, p.index, p.value.len());
+    }
+    println!("{:?} {:?}", ex.end, ex.outcomes.iter().map(crate::runner::outcome_str).collect::<Vec<_>>());
 }
